@@ -85,6 +85,57 @@ pub fn run_ops(ops: &[String]) -> (Vec<String>, Vec<String>, bool) {
                     }
                 }
             }
+            "prs" => {
+                // through the parser: `(var $<name>)` over the main harness language
+                let name = dec_cps(t[1]);
+                let text = format!("(var ${name})");
+                match guarded(move || RecExpr::<crate::langs::Main>::parse(&text)) {
+                    Ok(Ok(re)) => match re.node.slots().iter().next().copied() {
+                        Some(s) => {
+                            for (other, os) in &names {
+                                if *other != name && *os == s {
+                                    tags.push("viol:alias".to_string());
+                                }
+                                if *other == name && *os != s {
+                                    tags.push("viol:unstable-name".to_string());
+                                }
+                            }
+                            saw_tricky = true;
+                            names.push((name, s));
+                            issued.push(s);
+                            show(s)
+                        }
+                        None => "noslot".into(),
+                    },
+                    Ok(Err(_)) => "err".into(),
+                    Err(_) => {
+                        tags.push("viol:parse-panics".to_string());
+                        "panic".into()
+                    }
+                }
+            }
+            "reprs" => {
+                let i: usize = t[1].parse().unwrap();
+                match issued.get(i).copied() {
+                    Some(s) => match guarded(move || RecExpr::<crate::langs::Main>::parse(&format!("(var {})", s.to_string()))) {
+                        Ok(Ok(re)) => match re.node.slots().iter().next().copied() {
+                            Some(s2) => {
+                                if s2 != s {
+                                    tags.push("viol:roundtrip".to_string());
+                                }
+                                show(s2)
+                            }
+                            None => "noslot".into(),
+                        },
+                        Ok(Err(_)) => "err".into(),
+                        Err(_) => {
+                            tags.push("viol:roundtrip-panics".to_string());
+                            "panic".into()
+                        }
+                    },
+                    None => "none".into(),
+                }
+            }
             "disp" => {
                 let i: usize = t[1].parse().unwrap();
                 match issued.get(i) {
@@ -187,7 +238,14 @@ fn random_case(rng: &mut Rng) -> Vec<String> {
                 issued += 1;
             }
             4..=7 => {
-                ops.push(format!("nam {}", enc_cps(&name_pool(rng))));
+                let name = name_pool(rng);
+                // a third of the names that are one identifier for the tokenizer come in through the parser
+                let ident = !name.is_empty() && name.chars().all(|c| !c.is_whitespace() && !"()[]".contains(c));
+                if ident && rng.chance(1, 3) {
+                    ops.push(format!("prs {}", enc_cps(&name)));
+                } else {
+                    ops.push(format!("nam {}", enc_cps(&name)));
+                }
                 issued += 1;
             }
             8 => {
@@ -205,6 +263,9 @@ fn random_case(rng: &mut Rng) -> Vec<String> {
     // the count of issued slots above is an upper bound (panicking ops issue nothing): out-of-range is "none"
     for i in 0..issued.min(6) {
         ops.push(format!("reparse {i}"));
+    }
+    for i in 0..issued.min(4) {
+        ops.push(format!("reprs {i}"));
     }
     ops.push("eqm".to_string());
     ops
